@@ -36,6 +36,7 @@ type Outcome struct {
 	Project  *types.Project `json:"-"`
 	Model    map[string]any `json:"-"`
 	Steps    uint64 `json:"steps,omitempty"`
+	MaxDepth int    `json:"max_depth,omitempty"`
 	KeysCalls uint64 `json:"keys_calls,omitempty"`
 	IOEvents int   `json:"io_events,omitempty"`
 }
@@ -187,7 +188,7 @@ func RunLoad(L *Layout, fs *zsimrt.FS, stubFault string, render bool) (out *Outc
 	}
 	defer func() {
 		if r != nil {
-			out.Steps, out.KeysCalls = r.Steps, r.KeysCalls
+			out.Steps, out.KeysCalls, out.MaxDepth = r.Steps, r.KeysCalls, r.MaxDepthSeen
 			if fs != nil {
 				out.IOEvents = len(fs.Events)
 			}
